@@ -47,7 +47,8 @@ PROPS["C18"] = {
              "None or the one complete saved value (loop invariant over the record stream); History._load_history and MemoryDB._load_files raise "
              "nothing on None or a complete value; History.write saves exactly the two-list shape the loader indexes.  Together: every crash state "
              "of the in-place save (empty file, strict prefix of the new pickle, stale tail) reads as old, new or empty.  The crash-state "
-             "enumeration itself is a bounded stand-in on real files.",
+             "enumeration itself is a bounded stand-in on real files."
+             " Also proved: write_data truncates and writes one pickle (every crash state it can leave satisfies the reader's precondition), and read_data does return the record when the file holds exactly one.",
     "note": "pickle.load external contract (next object / EOFError at clean end / any exception on a truncated or corrupt pickle); open() does not fail; "
             "a strict prefix of a pickle never unpickles to a complete value (pickle format: STOP opcode is last); with-statement exit neither raises nor suppresses.",
     "undecided": ["atomicity of the write itself (write_data still truncates in place: the old version is not preserved across a crash, only openability is)"],
@@ -70,7 +71,8 @@ PROPS["C16"] = {
              "(cookie) encoding, else UTF-8, and reports (never silently replaces) a codec that cannot represent the text; _decode_data uses the declared or "
              "default codec whenever it accepts the bytes, latin-1 only as fallback, and never raises; file_data_to_unicode returns LF-only text and leaves a "
              "CR-free text unchanged -- for all texts, over uninterpreted codecs.  Byte-for-byte round trips on real files and cookie detection are "
-             "exhaustive bounded stand-ins.",
+             "exhaustive bounded stand-ins."
+             " Also proved: File.read refreshes the remembered newline convention on every read, write_file writes in that convention once and tells every observer once.",
     "note": "codecs (encode/decode) and str.replace are external: uninterpreted functions with the listed axioms (latin-1 total, replace removes every "
             "occurrence, replace of an absent substring is the identity); read_str_coding's agreement with the PEP 263 pattern is bounded only.",
     "undecided": ["codec round trip decode(encode(t)) == t", "separator lemma for str.replace chains (bounded only)"],
@@ -82,7 +84,8 @@ PROPS["C15"] = {
              "*args, keyword-only, **kwargs) in definition order for every ast.arguments record (comprehension loops with invariants), and "
              "Scope.lookup / Scope._propagated_lookup compute the LEGB binding with enclosing class scopes skipped, for every scope chain (recursion verified "
              "against its own contract, dynamic dispatch of get_propagated_names split over the classes).  Agreement of the name tables with the "
-             "interpreter's symbol table is an exhaustive bounded stand-in over one-construct modules.",
+             "interpreter's symbol table is an exhaustive bounded stand-in over one-construct modules."
+             " Also proved: the innermost scope holding an offset, the scope holding a line (with termination), and where a scope ends (find_scope_end), each cross-checked natively on real scope trees.",
     "note": "scope objects' name tables are abstract (names_of); the parent chain is finite (termination assumed); ast.arguments fields as declared records.",
     "undecided": ["name tables built by the scope visitors for every module (bounded only)", "holding-scope computation from line numbers"],
 }
@@ -92,7 +95,8 @@ PROPS["C01"] = {
     "claim": "Proof level for the text-edit kernel every rename goes through: ChangeCollector.get_changed returns the text with exactly the sorted, non-overlapping "
              "edit ranges replaced -- length, every kept gap, every replacement and the tail are pinned position by position (loop invariant over a ghost offset "
              "table, lemmas by induction) -- for every text and every edit list; and the whole-word scanner reports exactly the whole-word occurrences.  "
-             "Alpha-equivalence and same-output of whole renames are bounded stand-ins on a fixed program catalogue (not counted as proved).",
+             "Alpha-equivalence and same-output of whole renames are bounded stand-ins on a fixed program catalogue (not counted as proved)."
+             " same_pyname (two bindings are the same definition only through an import, with equal location AND object) is proved as well.",
     "note": "list.sort modelled as an uninterpreted sorted_key2(list) of equal length ascending in (start, end) (permutation not encoded); ''.join by its two defining "
             "axioms; strings over z3/cvc5 sequence theory; the non-overlap precondition is discharged by callers only through the finder contract.",
     "undecided": ["binding analysis (which tokens are occurrences) for all programs", "module/package renames", "behaviour for all inputs"],
@@ -103,7 +107,8 @@ PROPS["C02"] = {
     "claim": "Proof level for the textual layer: _TextualFinder._normal_search yields exactly the positions where the name occurs delimited by non-identifier "
              "characters, strictly increasing, none missing (gap formulation of completeness; the skip `current = found + len(name)` is justified by an exported "
              "lemma) -- for every source text and every identifier.  Exactness of the binding filter (same definition) is a bounded stand-in against a "
-             "reference binder on a fixed catalogue.",
+             "reference binder on a fixed catalogue."
+             " same_pyname is proved as well.",
     "note": "str.index modelled by its defining property (least occurrence at or after the start); isalnum uninterpreted (any Unicode classification); "
             "the regex-based _re_search (strings/comments skipped) is not under contract.",
     "undecided": ["regex search vs tokenizer", "pyname identity filter for all programs", "cross-module completeness for all projects"],
@@ -124,7 +129,8 @@ PROPS["C04"] = {
     "level": "other",
     "claim": "Proof level for call-site independence and binding: _DefinitionGenerator._calculate_header leaves the per-definition parameter map unchanged (frame "
              "obligation over the heap model: a call site cannot disturb the next), and ArgumentMapping binds each call's arguments as Python does (C06 proof).  "
-             "Body substitution, return replacement, name-conflict renaming and import fix-up are bounded stand-ins (pairs of call shapes against the interpreter; projects).",
+             "Body substitution, return replacement, name-conflict renaming and import fix-up are bounded stand-ins (pairs of call shapes against the interpreter; projects)."
+             " Also proved: which parameters the header initialises (functional contract over the call's binding), the header's shape, to_call_info, and AddingVisitor.visitNormalImport/visitFromImport (what an existing import already provides).",
     "note": "call parser and body generation are not under contract; dict.items() modelled as some enumeration of entries.",
     "undecided": ["name capture", "imports added in other modules for all shapes", "behaviour for all inputs"],
 }
@@ -134,7 +140,8 @@ PROPS["C13"] = {
     "claim": "Proof level for the per-operation cache contracts: after a change notification _FileListCacher either drops its list or the list already contained "
              "the changed file (so a write that creates a file cannot leave a stale list), every create/move/remove/validate notification drops it, and "
              "_ModuleCache._invalidate_resource removes exactly the changed resource and forgets all concluded data whenever a cached module or package "
-             "changes -- for every cache state.  The whole-history clause (answers equal a fresh project's) is a seeded random exploration plus fixed scenarios.",
+             "changes -- for every cache state.  The whole-history clause (answers equal a fresh project's) is a seeded random exploration plus fixed scenarios."
+             " Also proved: the notification path (FilteredResourceObserver add/remove/changed/created/removed/moved incl. folders holding watched resources, _Changes, PyCore._invalidate_resource_cache) and the invariant that every cached module is watched (get_pymodule, _invalidate_resource).",
     "note": "observer wiring (which notification reaches which cache) and the pyobjects-side concluded-data mechanism are not under contract; the sqlite "
             "auto-import index is not covered.",
     "undecided": ["whole-history coherence for all histories", "concluded data across modules", "auto-import index"],
@@ -144,7 +151,8 @@ PROPS["C09"] = {
     "level": "exploration",
     "claim": "Mostly a bounded check with an effect monitor: every offset x 12 refactorings computes its changes with every disk mutator intercepted and the disk "
              "snapshot compared; scenarios check announced == touched, inside the project, never ignored.  Deductive kernel: ChangeSet.get_changed_resources "
-             "announces everything its children announce (loop invariant), and a composite's effect is its children's effects (C10 contracts).",
+             "announces everything its children announce (loop invariant), and a composite's effect is its children's effects (C10 contracts)."
+             " Also proved: every leaf announces what its do() touches (lemmas over a file-system map), _ResourceOperations.move/remove/create issue exactly one file-system call and tell every observer once, ignored resources bypass version control, Resource mutators go through one change set and project.do.",
     "note": "no contract within reach states 'get_changes of every refactoring has no disk effect' for all requests (dynamic dispatch over the whole refactoring "
             "package); the monitor sees only the executions of the bounded domain.",
     "undecided": ["purity for all requests", "preview text == written text"],
@@ -154,7 +162,8 @@ PROPS["C07"] = {
     "level": "other",
     "claim": "Proof level for the selection kernel of 'remove unused imports': _OneTimeSelector keeps an import exactly when some dotted prefix of what it binds "
              "is wanted and not yet provided, and then marks every prefix as provided; nothing is ever unselected -- for every name set (loops with early return, "
-             "existential postcondition).  That names keep resolving, exports stay available and the actions are idempotent is an exhaustive small-scope stand-in.",
+             "existential postcondition).  That names keep resolving, exports stay available and the actions are idempotent is an exhaustive small-scope stand-in."
+             " Also proved: the selector keeps an import IFF a prefix is wanted and not yet provided, AddingVisitor.visitNormalImport/visitFromImport (soundness and completeness of 'already there'), FromImport.get_imported_resource.",
     "note": "_get_dotted_tokens (split/join) is abstract; visitors over import statements, sorting and text rewriting are not under contract.",
     "undecided": ["FilteringVisitor / AddingVisitor / remove_duplicates", "relative->absolute and long-import handling for all modules"],
 }
@@ -184,7 +193,8 @@ PROPS["C20"] = {
     "claim": "Mostly bounded: completion at every offset and every line truncation of a fixed module (no internal error, proposals extend the prefix), completeness "
              "probes against hand-listed visible names, go-to-definition on every identifier of the C02 catalogue against the reference binder, scenarios.  "
              "Deductive kernels: the syntax fixer's offset bookkeeping (_Commenter._set/_insert record exactly the length change per original line) and the word "
-             "scanners (C14 contracts) are proved for all inputs.",
+             "scanners (C14 contracts) are proved for all inputs."
+             " Also proved: the scope holding an offset / a line, find_scope_end, _is_defined_after, is_function_keyword_parameter.",
     "note": "visible-name computation (_undotted_completions over pyscopes) and FixSyntax's retry loop are not under contract.",
     "undecided": ["internal-error freedom for all modules", "completeness of proposals for all scopes"],
 }
@@ -193,7 +203,8 @@ PROPS["C03"] = {
     "level": "exploration",
     "claim": "Mostly bounded and behavioural: 16 464 extractions of statement regions are executed before and after on 9 inputs each (same results, output and "
              "exceptions, or refused), plus fixed regions for control flow.  Deductive kernels: the analysis' conditional/loop context managers restore the enclosing "
-             "context on exit (generator contracts over try/finally) and the text edits go through the verified ChangeCollector.",
+             "context on exit (generator contracts over try/finally) and the text edits go through the verified ChangeCollector."
+             " Also proved: the contexts the with-bodies see (at_yield clauses) and the break/continue finder's depth discipline (a loop's else-clause is judged at the enclosing depth).",
     "note": "the data-flow collector (visitor with dozens of handlers) is not under contract; behaviour is compared on a finite input set only.",
     "undecided": ["behavioural equivalence for all programs and inputs", "similar= matching beyond C19"],
 }
@@ -202,7 +213,8 @@ PROPS["C05"] = {
     "level": "exploration",
     "claim": "Mostly bounded and behavioural (95 move/rename/to-package scenarios executed before and after).  Deductive kernel: libutils.modname computes the dotted name "
              "'own name qualified by every enclosing package folder' for every resource (loop invariant over a recursively specified qual), and the lemma that "
-             "module-to-package keeps that name follows from the contract's specification; the import selector kernel of C07 is shared.",
+             "module-to-package keeps that name follows from the contract's specification; the import selector kernel of C07 is shared."
+             " Also proved: AddingVisitor.visitNormalImport/visitFromImport and FromImport.get_imported_resource (a relative import is resolved from its own package).",
     "note": "no contract within reach states 'every importer still works' (import rewriting in move.py spans occurrence finding, import tools and text edits).",
     "undecided": ["all import-rewriting paths of move.py", "behaviour for all projects"],
 }
@@ -211,7 +223,8 @@ PROPS["C17"] = {
     "level": "exploration",
     "claim": "Mostly bounded and behavioural (29 projects executed before and after the refactoring).  Deductive kernel: the read/write classification "
              "encapsulate-field relies on -- get_assignment_type reports only operators ending in '=' of 1-3 characters and never a comparison (==, <=, >=, !=) -- for "
-             "every text, together with the word scanners it uses (C14 contracts).",
+             "every text, together with the word scanners it uses (C14 contracts)."
+             " Also proved: get_assignment_type exactly (shortest of the next 1-3 characters ending in '='), and _manage_writes closes a pending setter call exactly at the end of the assignment.",
     "note": "four of the five refactorings have no function-level contract within reach (they are compositions of occurrence finding, matching and text edits).",
     "undecided": ["behaviour preservation for all classes and all client modules"],
 }
